@@ -400,14 +400,23 @@ def _classify_value(eng, fd, pl, bi, line, depth, payload=False, _def=None):
             # implicit flow: the conditions under which each definition executes (`a() && b()` assigns b() only if a())
             if depth < 6:
                 seen_sw = set()
-                for kind2, dbi2, x2 in fd.defs.get(l, []):
+                def _is_const_def(d_):
+                    return d_[0] == 'assign' and d_[2]['rv']['k'] == 'use' and d_[2]['rv']['op']['k'] == 'const'
+                # (the definitions that carry a computed value first: the conditions they run under are what the value `true` of `a && b` - the
+                # value `false` of `a || b` - went through)
+                for kind2, dbi2, x2 in sorted(fd.defs.get(l, []), key=lambda d_: _is_const_def(d_)):
                     for (a_sw, s_sw) in body.control_deps_transitive(dbi2):
                         if a_sw in seen_sw or a_sw == bi:
                             continue
                         seen_sw.add(a_sw)
                         tsw = body.blocks[a_sw]['term']
                         if tsw['k'] == 'switch' and tsw['discr']['k'] in ('copy', 'move') and tsw['discr']['pl']['l'] != l:
-                            subs.append(_classify_value(eng, fd, tsw['discr']['pl'], a_sw, tsw.get('line'), depth + 1))
+                            gs_ = _classify_value(eng, fd, tsw['discr']['pl'], a_sw, tsw.get('line'), depth + 1)
+                            # the definition runs under this condition; when it can also be reached the other way (`a && b || c`: c's side
+                            # of the `||` is reached with a false *or* b false) the condition's outcome is not fixed by the value
+                            if not _is_const_def((kind2, dbi2, x2)) and not (body.dominates(s_sw, dbi2) and all(p_ == a_sw or body.dominates(s_sw, p_) for p_ in body.pred[s_sw])):
+                                gs_.chain = 'mixed' if gs_.kind == 'multi' else 'unfixed'
+                            subs.append(gs_)
             if subs:
                 g = Gate('multi', 'bool-of-checks', [fd.read_place(pl)], body.path, bi, line)
                 g.args = subs
@@ -824,6 +833,8 @@ class GateAnalysis:
             elif g.chain == 'and' and pt is False:
                 pt = None
             elif g.chain == 'mixed':
+                pt = None
+            if s.chain == 'unfixed' and s.kind != 'multi':
                 pt = None
             if pt is None and g.truth is not None and s.kind != 'multi' and s.chain is None:
                 s.chain = 'unfixed'       # the connective, not the analysis, leaves this part's outcome open
